@@ -943,6 +943,8 @@ func (r *rewriter) selectStmt(x *ast.SelectStmt) ([]ast.Stmt, error) {
 	if def != nil {
 		disp = append(disp, &ast.CaseClause{List: []ast.Expr{intLit(len(comms))}, Body: def.Body})
 	}
+	// keep the statement terminating when every clause of the select was
+	disp = append(disp, &ast.CaseClause{Body: []ast.Stmt{&ast.ExprStmt{X: call(ast.NewIdent("panic"), strLit("zsim: unreachable select clause"))}}})
 	pre = append(pre, &ast.SwitchStmt{Tag: id(kvar), Body: &ast.BlockStmt{List: disp}})
 	return []ast.Stmt{&ast.BlockStmt{List: pre}}, nil
 }
